@@ -72,7 +72,8 @@ func (d *Document) GetVariableBooleanValue(name string) (value, valid bool) {
 	for i := range d.VariableDefinitions {
 		definitionName := d.VariableDefinitionNameString(i)
 		if definitionName == name {
-			if d.VariableDefinitions[i].DefaultValue.IsDefined {
+			// only a boolean default is a boolean value: the ref of any other kind indexes another value table
+			if d.VariableDefinitions[i].DefaultValue.IsDefined && d.VariableDefinitions[i].DefaultValue.Value.Kind == ValueKindBoolean {
 				return bool(d.BooleanValue(d.VariableDefinitions[i].DefaultValue.Value.Ref)), true
 			}
 		}
